@@ -60,16 +60,29 @@ def _pair_events(args):
                 ks = list(range(8))
             else:
                 ks = sorted({0, 1, rnd.randrange(8), rnd.randrange(8)})
+            # (half of the calls leave out every flag that has its DOCUMENTED default value: the default is part of the API)
+            DEFAULTS = {"ov": dict(match_strand=False, full_span=False, strict_parent_compare=False),
+                        "it": dict(match_strand=True, full_span=False, strict_parent_compare=False),
+                        "mi": dict(match_strand=True, strict_parent_compare=False),
+                        "co": dict(match_strand=False, full_span=False, strict_parent_compare=False)}
+
+            def fk(op, k):
+                d = dict(match_strand=bool(k & 1), full_span=bool(k & 2), strict_parent_compare=bool(k & 4))
+                if op == "mi":
+                    d.pop("full_span")
+                if rnd.random() < 0.5:
+                    d = {kk: v for kk, v in d.items() if DEFAULTS[op][kk] != v}
+                return d
+
             f = lambda k: dict(match_strand=bool(k & 1), full_span=bool(k & 2), strict_parent_compare=bool(k & 4))  # noqa
             # the operation groups are asked in a random order (a quarter of the pairs: twice, the second answers
             # are the ones judged): no answer may depend on what was computed from the same operands before
             groups = {
-                "ov": lambda: [[k, E.outcome(lambda k=k: a.has_overlap(b, **f(k)))] for k in ks],
-                "it": lambda: [[k, _locval(lambda k=k: a.intersection(b, **f(k)))] for k in ks],
-                "mi": lambda: [[k, _locval(lambda k=k: a.minus(b, match_strand=bool(k & 1),
-                                                               strict_parent_compare=bool(k & 4)))]
+                "ov": lambda: [[k, E.outcome(lambda k=k: a.has_overlap(b, **fk("ov", k)))] for k in ks],
+                "it": lambda: [[k, _locval(lambda k=k: a.intersection(b, **fk("it", k)))] for k in ks],
+                "mi": lambda: [[k, _locval(lambda k=k: a.minus(b, **fk("mi", k)))]
                                for k in ks if not k & 2],
-                "co": lambda: [[k, E.outcome(lambda k=k: a.contains(b, **f(k)))] for k in ks],
+                "co": lambda: [[k, E.outcome(lambda k=k: a.contains(b, **fk("co", k)))] for k in ks],
                 "un": lambda: _locval(lambda: a.union(b)),
                 "up": lambda: _locval(lambda: a.union_preserve_overlaps(b)),
                 "di": lambda: [E.outcome(lambda kd=kd: a.distance_to(b, kd)) for kd in kinds],
